@@ -535,6 +535,7 @@ func TestVerifC20FutureBound(t *testing.T) {
 		}()
 
 		nPeer := 0
+		parkedOwn := make(map[lnwire.Message]bool)
 		send := func(m *c20Msg) (lnwire.Message, bool) {
 			parsed, err := m.parse()
 			if err != nil {
@@ -544,7 +545,10 @@ func TestVerifC20FutureBound(t *testing.T) {
 			peer := &mockPeer{pk: c20PrivFrom(u.seed,
 				fmt.Sprintf("bound/peer/%d", nPeer%50)).PubKey()}
 			p := ctx.send(cctx, parsed, peer)
-			out, _ := ctx.await(p, c20Deadline, false)
+			out, _ := ctx.await(p, c20Deadline, m.kind == c20CU)
+			if out == c20Stashed {
+				parkedOwn[parsed] = true
+			}
 
 			return parsed, out != c20TimedOut
 		}
@@ -611,11 +615,10 @@ func TestVerifC20FutureBound(t *testing.T) {
 					c20MaxFutureDocumented)
 			}
 		}
-		floodDeadline := time.After(c20Deadline)
 		for _, p := range futs {
-			select {
-			case <-p.done:
-			case <-floodDeadline:
+			if out, _ := ctx.await(p, c20Deadline, true); out ==
+				c20TimedOut {
+
 				st.Count("inconclusive", 1)
 				return
 			}
@@ -638,11 +641,15 @@ func TestVerifC20FutureBound(t *testing.T) {
 		keptOwnLast := 0
 		for i, p := range ownParsed {
 			cp, _ := ctx.lookupFuture(p)
-			if cp == nil {
+			if cp == nil && !parkedOwn[p] {
 				continue
 			}
-			keptCopies = append(keptCopies, cp)
+			if cp != nil {
+				keptCopies = append(keptCopies, cp)
+			}
 			if !first || i >= len(own) {
+				// kept for its block (or parked with the premature
+				// updates, which serves the same purpose)
 				keptOwnLast++
 			}
 		}
